@@ -1,5 +1,7 @@
 import PdfModel.Lemmas.TypedLoad
 import PdfModel.Lemmas.Numeric
+import PdfModel.Lemmas.CryptTotal
+import PdfModel.Lemmas.EncTotal
 import PdfModel.Generated.Lexical
 
 /-!
@@ -546,7 +548,95 @@ theorem fax_dims_total (columns rows : Nat) : faxDims true columns rows ≠ .pan
   · simp
   · split <;> simp
 
+/-- … and what a stream with a stated number of rows may decode to is bounded by its own length:
+    at most `8 · len` rows of at most 65535 bytes (four bytes cannot claim 4 GiB). -/
+theorem fax_output_bounded (columns rows dataLen c r : Nat) (h : faxDimsData columns rows dataLen = .ok (c, r)) :
+    c ≤ 65535 ∧ r ≤ 8 * dataLen := by
+  unfold faxDimsData faxDims at h
+  rw [if_pos rfl] at h
+  by_cases h1 : columns = 0 ∨ columns > 65535
+  · simp [h1] at h
+  · by_cases h2 : rows > 65535
+    · simp [h1, h2] at h
+    · simp only [h1, h2, if_false] at h
+      by_cases h3 : rows > 8 * dataLen
+      · simp [h3] at h
+      · simp only [h3, if_false, Out.ok.injEq, Prod.mk.injEq] at h
+        omega
+
 theorem faxOld_panics : faxDims false 0 5 = .panic ∧ faxDims false 4294967295 4294967295 = .panic := by decide
+
+-- ===================================================================================================
+-- 7b. key lengths and predictor geometry with arbitrary parameters (models of the C06 / C05 packages)
+
+/-- **Key lengths**: for every revision, every key length in bits (not a multiple of 8, zero, 136, 256,
+    2^31 − 8, …) and both outcomes of the user password check, the slices and cipher keys of
+    `from_password` stay inside their buffers. -/
+theorem key_schedule_total (revision keyBits : Nat) (userOk : Bool) :
+    keySchedule true revision keyBits userOk ≠ .panic ∧ keySchedule true revision keyBits userOk ≠ .oof := by
+  rcases keySchedule_returns revision keyBits userOk with h | h <;> rw [h] <;> simp
+
+/-- the same with the key of the object cipher, for every key size and every key buffer that
+    `from_password` can hand over (`max key_size 16` bytes, or the 32 bytes of revisions 5 and 6) -/
+theorem object_key_total (aes : Bool) (keySize keyLen : Nat) (h : min keySize 16 ≤ keyLen) :
+    objectKeySlices aes keySize keyLen ≠ .panic ∧ objectKeySlices aes keySize keyLen ≠ .oof := by
+  rw [objectKeySlices_ok aes keySize keyLen h]; simp
+
+/-- **Why the `min`**: without the clamp in step h) of Algorithm 2, a key length of 136 bits (17 bytes) —
+    which passes `% 8` and every revision check — slices 17 bytes out of the 16 byte digest. -/
+theorem keyUnclamped_panics : keySchedule false 3 136 true = .panic ∧ keySchedule false 4 256 false = .panic := by decide
+example : keySchedule true 3 136 true = .ok () ∧ keySchedule true 4 256 false = .err ∧ keySchedule true 2 136 true = .ok () := by decide
+example : keySchedule true 3 0 true = .err ∧ keySchedule true 3 7 true = .err ∧ keySchedule true 3 8 false = .ok () := by decide
+
+/-- the crypt filter's key length: any number of bytes -/
+theorem cf_key_bits_total (n : Nat) : cfKeyBits true n ≠ .panic ∧ cfKeyBits true n ≠ .oof := by
+  unfold cfKeyBits; split <;> simp
+theorem cfKeyBitsOld_panics : cfKeyBits false 536870912 = .panic := by decide
+
+/-- **`from_password` on the C06 model, revisions 2–4, arbitrary key length**: whenever the hash
+    primitives are functions with the digest lengths of MD5 (`PrimsAgree`, `WF`), the model returns a
+    decoder, `InvalidPassword` or an error for *every* dictionary, id, password, level and `keyBits` — the
+    C06 theorems cover 8 ≤ keyBits ≤ 128 and say which; this one covers the rest and says "no panic". -/
+theorem from_password_rc4_total {P : Crypt.Prims} {H : StdSec.Hashes} (hp : StdSec.PrimsAgree P H) (hw : H.WF)
+    (d : Crypt.CryptDict) (id pass : Crypt.Bytes) (level keyBits : Nat) (m : Crypt.Method) :
+    Crypt.fromPasswordRc4 P d id pass level keyBits m ≠ .panic ∧ Crypt.fromPasswordRc4 P d id pass level keyBits m ≠ .oof :=
+  Crypt.fromPasswordRc4_returns hp hw d id pass level keyBits m
+
+/-- **Predictor geometry**: what `predictor_geometry` accepts has at least one column, one colour and a
+    row of at least one byte — so neither `chunks_mut(stride)` (TIFF) nor `len / (stride + 1)` (PNG) sees a zero. -/
+theorem predictor_geometry_guards (p : Enc.Params) (bpp stride : Nat) (h : Enc.predictorGeometry p = .ok (bpp, stride)) :
+    1 ≤ p.colors ∧ 1 ≤ p.columns ∧ 1 ≤ bpp ∧ 1 ≤ stride := by
+  unfold Enc.predictorGeometry at h
+  split at h
+  · simp at h
+  · rename_i hg
+    simp only [] at h
+    split at h
+    · simp only [Out.ok.injEq, Prod.mk.injEq] at h
+      have hc : 1 ≤ p.colors := by omega
+      have hk : 1 ≤ p.columns := by omega
+      have hb : 1 ≤ p.bpc := by omega
+      have h1 : 1 ≤ p.colors.toNat := by omega
+      have h2 : 1 ≤ p.columns.toNat := by omega
+      have h3 : 1 ≤ p.bpc.toNat := by omega
+      have hpix : 1 ≤ p.colors.toNat * p.bpc.toNat := Nat.mul_pos h1 h3
+      have hrow : 1 ≤ p.colors.toNat * p.bpc.toNat * p.columns.toNat := Nat.mul_pos hpix h2
+      refine ⟨hc, hk, ?_, ?_⟩
+      · rw [← h.1]; omega
+      · rw [← h.2]; omega
+    · simp at h
+
+/-- **Undoing a predictor is total** for every /Predictor, /Colors, /BitsPerComponent, /Columns (any
+    `i32`) and every decoded byte string (`Lemmas/EncTotal.lean` of the C05 package). -/
+theorem unpredict_total (decoded : Enc.Bytes) (p : Enc.Params) :
+    Enc.unpredict decoded p ≠ .panic ∧ Enc.unpredict decoded p ≠ .oof :=
+  Enc.unpredict_returns decoded p
+
+/-- **Why `columns < 1`**: a row length of zero reaches `chunks_mut(0)` under the TIFF predictor (and only
+    there: the PNG loop divides by `stride + 1`). -/
+theorem tiffZeroStride_panics : Enc.tiffUnpredict [1, 2, 3] 1 8 0 0 = .panic := by decide
+example : Enc.unpredict [1, 2, 3] { predictor := 2, columns := 0 } = .err := by decide
+example : Enc.unpredict [1, 2, 3] { predictor := 12, columns := 0 } = .err := by decide
 
 -- ===================================================================================================
 -- 8. what this does not carry
